@@ -131,6 +131,11 @@ class Site:
         return '%s#%s:%s' % (self.fn, self.kind, self.desc)
 
 
+SUCCESS_PRESERVING = ('std::result::Result::<T, E>::and_then', 'std::option::Option::<T>::and_then', 'std::result::Result::<T, E>::map',
+                      'std::option::Option::<T>::map', 'std::option::Option::<T>::filter', 'std::result::Result::<T, E>::and',
+                      'std::option::Option::<T>::and', 'std::option::Option::<T>::zip')
+
+
 class ZoneFn:
     def __init__(self, za, body):
         self.za = za
@@ -143,6 +148,7 @@ class ZoneFn:
         self.edge_mods = {}         # (switch_block, succ) -> [(sym, c, m)]  meaning (sym + c) % m == 0 on that edge
         self.fresh = 0
         self.sym_bound = {}
+        self.inv_facts = []    # facts about locals assigned on several paths that hold for each of their values
         self.scaled = {}       # opaque symbol -> ('div'|'mul', x, c, block): x / c or c * x
         self.sym_le = {}       # opaque symbol -> a term it never exceeds (quotients, differences)
         self.elem_of = {}      # symbol of one element read -> elem:<container> that bounds it
@@ -260,6 +266,43 @@ class ZoneFn:
         return added
 
     # ------------------------------------------------------------------ mutation census
+    def _len_before_mutation(self, pl, bi):
+        """length of a vector that is changed later in the body, read at a block no mutation can come before: what its creating call returned"""
+        fd, body = self.fd, self.body
+        root, path = fd.resolve_place(pl)
+        if path or fd.is_param(root) or root not in self.mut_roots:
+            return None
+        d = self.single_def(root)
+        if d is None or d[0] != 'call':
+            # `let mut v = f(..)?` : the payload of one call, moved into the variable once
+            ds = [x for x in fd.defs.get(root, []) if not x[2].get('dst', {}).get('p')]
+            if len(ds) != 1 or ds[0][0] != 'assign' or ds[0][2]['rv']['k'] != 'use' or ds[0][2]['rv']['op']['k'] not in ('copy', 'move'):
+                return None
+            src = ds[0][2]['rv']['op']['pl']
+            o = self._origin_call(src['l'])
+            if o is None or not any(q['k'] == 'downcast' and q['n'] in ('Continue', 'Ok', 'Some') for q in src.get('p', [])):
+                return None
+            call = o[1]
+        else:
+            call = d[2]
+        muts = []
+        for mb, t in body.calls():
+            for a in t['args']:
+                if a['k'] in ('copy', 'move') and body.local_ty(a['pl']['l']).startswith('&mut ') and fd.resolve_place(a['pl'])[0] == root:
+                    muts.append(mb)
+        # can a mutating call run before block bi?
+        seen, st = set(), list(muts)
+        while st:
+            b = st.pop()
+            for s2 in body.succ[b]:
+                if s2 not in seen and not body.blocks[s2]['cleanup']:
+                    seen.add(s2)
+                    st.append(s2)
+        if bi in seen or bi in muts:
+            return None
+        r = self.za.call_retlen(self, call, ())
+        return r if r is not None and not self.unstable(r) else None
+
     def _mut_roots(self):
         """local roots whose length may change inside the body (borrowed mutably by a non length-preserving callee,
         or assigned more than once)."""
@@ -580,6 +623,55 @@ class ZoneFn:
     def unstable(self, t):
         return t is not None and t[0] is not None and t[0].startswith('m')
 
+    def reaching_defs(self, l, bi, si=None):
+        """definitions (kind, block, stmt/term) of local l that may reach statement si of block bi (si None: the terminator);
+        whole-local definitions only - a partial write makes the answer None."""
+        body = self.body
+        ds = self.fd.defs.get(l, [])
+        if any(d[2].get('dst', {}).get('p') for d in ds):
+            return None
+        # last definition inside the block before the use
+        blk = body.blocks[bi]
+        last = None
+        for k, st in enumerate(blk['stmts']):
+            if si is not None and k >= si:
+                break
+            if st['k'] == 'assign' and st['dst']['l'] == l:
+                last = ('assign', bi, st)
+        if last is not None:
+            return [last]
+        out_def = {}       # block -> the definition live at its end (if the block defines l)
+        for d in ds:
+            kind, b, x = d
+            if kind == 'assign':
+                out_def[b] = d           # statements are visited in order: the last one wins
+        call_def = {}      # a call defines l on the edge to its return block
+        for d in ds:
+            if d[0] == 'call':
+                call_def[d[1]] = d
+        res, seen, st = [], set(), [(p_, bi) for p_ in body.pred[bi]]
+        if bi == 0:
+            res.append(('entry', 0, None))
+        while st:
+            b, frm = st.pop()
+            if (b, frm) in seen:
+                continue
+            seen.add((b, frm))
+            if b in call_def and body.blocks[b]['term'].get('t') == frm:
+                res.append(call_def[b])
+                continue
+            if b in out_def:
+                res.append(out_def[b])
+                continue
+            if b == 0:
+                res.append(('entry', 0, None))
+            st.extend((p_, b) for p_ in body.pred[b])
+        uniq = []
+        for r in res:
+            if not any(r[2] is u[2] and r[0] == u[0] for u in uniq):
+                uniq.append(r)
+        return uniq
+
     def single_def(self, l):
         ds = self.fd.defs.get(l, [])
         if len(ds) > 1:
@@ -593,6 +685,8 @@ class ZoneFn:
         if op['k'] == 'const':
             if 'int' in op:
                 return (None, int(op['int']))
+            if 'pint' in op:
+                return (None, int(op['pint']))       # reference to a promoted integer literal
             if 'uneval' in op:
                 v = self.za.named_const(op)
                 if v is not None:
@@ -640,6 +734,15 @@ class ZoneFn:
             d = self.single_def(pl['l'])
             if d and d[0] == 'assign' and d[2]['rv']['k'] == 'binop':
                 return self._binop_term(pl['l'], d[2]['rv'], d[1])
+        # component of a tuple built in this body: `match (&a, &b) { (l, r) => .. }` of assert_eq!
+        nd = [p for p in ps if p['k'] != 'deref']
+        if len(nd) == 1 and nd[0]['k'] == 'field' and nd[0]['n'].isdigit():
+            d = self.single_def(pl['l'])
+            if d and d[0] == 'assign' and d[2]['rv']['k'] == 'agg' and d[2]['rv'].get('ak') == 'tuple' and int(nd[0]['n']) < len(d[2]['rv']['ops']):
+                o = d[2]['rv']['ops'][int(nd[0]['n'])]
+                oty = self.body.local_ty(o['pl']['l']) if o['k'] in ('copy', 'move') and not o['pl'].get('p') else ''
+                if oty.lstrip('&').strip() in ('usize', 'u64', 'u32', 'u16', 'u8'):
+                    return self.term_op(o)
         # payload of Option / ControlFlow
         if all(p['k'] in ('downcast', 'field') for p in ps) and any(p['k'] == 'downcast' for p in ps):
             return self._payload_term(pl)
@@ -647,6 +750,41 @@ class ZoneFn:
 
     def _opaque(self, l):
         return ('v%d' % l, 0)
+
+    def _rel_ub_multi(self, l, sym):
+        """a local assigned on several paths never exceeds T when every definition either copies T (one stable term) or computes a value
+        that is not above the local's own current value (`M = M.checked_sub(k)?`, `M = M / k`, `M -= k`)."""
+        base = None
+        for kind, bi, x in self.fd.defs.get(l, []):
+            if kind != 'assign' or x['dst'].get('p'):
+                return
+            rv = x['rv']
+            if rv['k'] == 'use':
+                t = self.term_op(rv['op'])
+            elif rv['k'] == 'binop' and rv['op'].replace('WithOverflow', '').replace('Unchecked', '') in ('Div', 'Rem', 'Sub'):
+                t = self._binop_term(l, rv, bi)
+            else:
+                return
+            if t is None:
+                return
+            # follow `never exceeds` links: quotient / difference / checked payload of the local itself
+            cur, hops = t, 0
+            while cur is not None and cur[0] is not None and cur[0] != sym and cur[0] in self.sym_le and hops < 6:
+                nx = self.sym_le[cur[0]]
+                cur = (nx[0], nx[1] + cur[1]) if cur[1] <= 0 else None
+                hops += 1
+            if cur is not None and cur[0] == sym and cur[1] <= 0:
+                continue                # not above the current value
+            if t[0] is not None and (t[0].startswith('m') and t[0][1:].isdigit() or self.unstable(t)):
+                return
+            if base is None:
+                base = t
+            elif base != t:
+                return
+        if base is not None and base[0] is not None:
+            self.sym_le[sym] = base
+            self.inv_facts.append(((sym, 0), base))       # holds for every value the local ever takes
+            self._fact_cache = {k: v for k, v in self._fact_cache.items() if isinstance(k, tuple) and k and k[0] == 'pb'}
 
     def ubound_local(self, l):
         """flow-insensitive upper bound of a local assigned on several paths: max over its definitions."""
@@ -708,6 +846,7 @@ class ZoneFn:
                     self.sym_bound[sym] = nb
                 else:
                     self.sym_bound[sym] = UMAX
+                self._rel_ub_multi(l, sym)
                 return (sym, 0)
             if d is not None:
                 kind, bi, x = d
@@ -719,7 +858,7 @@ class ZoneFn:
                         res = self._binop_term(l, rv, bi)
                     elif rv['k'] == 'unop' and rv['op'] == 'PtrMetadata' and rv['a']['k'] in ('copy', 'move'):
                         res = self.len_of_place(rv['a']['pl'], bi)
-                    elif rv['k'] == 'ref' and not rv['pl'].get('p') and ty.lstrip('&').strip() in ('usize', 'u64', 'u32', 'u16', 'u8'):
+                    elif rv['k'] == 'ref' and all(q['k'] == 'deref' for q in rv['pl'].get('p', [])) and ty.lstrip('&').strip() in ('usize', 'u64', 'u32', 'u16', 'u8'):
                         res = self.term_local(rv['pl']['l'])
                     elif rv['k'] == 'cast' and rv['ck'] == 'IntToInt':
                         src = self.term_op(rv['op'])
@@ -729,6 +868,8 @@ class ZoneFn:
                     cal = x.get('callee') or ''
                     if cal in LEN_CALLS and x['args'][0]['k'] in ('copy', 'move'):
                         res = self.len_of_place(x['args'][0]['pl'], bi)
+                        if res is None:
+                            res = self._len_before_mutation(x['args'][0]['pl'], bi)
                         if res is None:
                             res = ('lenat%d' % l, 0)
                             self.sym_bound[res[0]] = IMAX // elem_size_of(self.body.local_ty(x['args'][0]['pl']['l']))
@@ -743,6 +884,18 @@ class ZoneFn:
                         if es is not None:
                             self.global_facts.append((None, res, (es, 0)))
                             self.elem_of[res[0]] = es
+                    elif ty in ('usize', 'u64', 'u32') and cal in ('std::convert::From::from', 'std::convert::Into::into') and len(x['args']) == 1 \
+                            and x['args'][0]['k'] in ('copy', 'move') and self.body.local_ty(x['args'][0]['pl']['l']) == 'bool':
+                        res = self._opaque(l)                # usize::from(bool) is 0 or 1
+                        self.sym_bound[res[0]] = 1
+                        self.global_facts.append((None, res, (None, 1)))
+                    elif ty in ('usize', 'u64', 'u32'):
+                        ub = self._callee_retval(x)
+                        if ub:
+                            res = self._opaque(l)
+                            for T in ub:
+                                self.global_facts.append((bi, res, T))
+                            self.sym_le[res[0]] = ub[0]
                 if res is None and ty in ('usize', 'u64', 'u32', 'u16', 'u8', 'bool') and ty != 'bool':
                     res = self._opaque(l)
         self._term[l] = res
@@ -855,7 +1008,8 @@ class ZoneFn:
             if ci is not None and inner is not None and ci[0] in self.za.prog.bodies:
                 czf = self.za.zf(ci[0])
                 d0 = czf.single_def(0)
-                if d0 and d0[0] == 'call' and (d0[2].get('callee') or '').endswith(('::checked_sub', '::checked_add')) and len(d0[2]['args']) == 2:
+                if d0 and d0[0] == 'call' and (d0[2].get('callee') or '').endswith(('::checked_sub', '::checked_add', '::checked_div', '::checked_rem')) \
+                        and len(d0[2]['args']) == 2:
                     def tr(o):
                         tt = czf.term_op(o)
                         if tt is None:
@@ -870,6 +1024,15 @@ class ZoneFn:
                     chained = ((d0[2].get('callee') or '').split('::')[-1], tr(d0[2]['args'][0]), tr(d0[2]['args'][1]))
         if chained is not None:
             cal = '::' + chained[0]
+        if variant and variant[0] in ('Some', 'Continue', 'Ok') and chained is None:
+            ub = self._callee_retval(t)
+            if ub:
+                res = ('v%dp' % l, 0)
+                for T in ub:
+                    self.global_facts.append((('payload', l), res, T))
+                self.sym_le[res[0]] = ub[0]
+                self._term[key] = res
+                return res
         if variant and variant[0] in ('Some', 'Continue', 'Ok'):
             if cal.endswith('::checked_sub'):
                 a, b = (chained[1], chained[2]) if chained is not None else (self.term_op(t['args'][0]), self.term_op(t['args'][1]))
@@ -891,7 +1054,7 @@ class ZoneFn:
                         if o is not None:
                             self.global_facts.append((('payload', l), o, res))
             elif cal.endswith('::checked_div') or cal.endswith('::checked_rem'):
-                a = self.term_op(t['args'][0])
+                a = chained[1] if chained is not None else self.term_op(t['args'][0])
                 res = ('v%dp' % l, 0)
                 if a is not None:
                     self.global_facts.append((('payload', l), res, a))
@@ -919,6 +1082,20 @@ class ZoneFn:
                         self.elem_of[res[0]] = es
         self._term[key] = res
         return res
+
+    def _callee_retval(self, t):
+        """upper bounds (caller terms) of the integer a local callee returns (plain, or as the payload of Ok / Some)"""
+        from flow import local_target
+        tgt = local_target(self.za.eng, t)
+        if tgt is None or tgt == self.body.path:
+            return []
+        summ = self.za.summary(tgt)
+        out = []
+        for T in (summ or {}).get('retval', []):
+            b = self.za.subst(self, t, T)
+            if b is not None and not self.unstable(b):
+                out.append(b)
+        return out
 
     def _origin_call(self, l, depth=0):
         """follow `?`, ok_or, map_err back to the call that produced the Option/Result held in local l."""
@@ -1256,6 +1433,16 @@ class ZoneFn:
             return None
         call = o[1]
         from flow import local_target
+        # `x.and_then(f)` / `x.map(f)` / `x.filter(p)` succeed only if x did: what the success of x guarantees still holds
+        for _ in range(6):
+            if (call.get('callee') or '') in SUCCESS_PRESERVING and call['args'] and call['args'][0]['k'] in ('copy', 'move') \
+                    and not call['args'][0]['pl'].get('p'):
+                o2 = self._origin_call(call['args'][0]['pl']['l'])
+                if not o2:
+                    return None
+                call = o2[1]
+                continue
+            break
         if (call.get('callee') or '') in ('std::option::Option::<T>::map_or', 'std::option::Option::<T>::map_or_else') and len(call['args']) == 3:
             nf = self._map_or_none_facts(call)
             if nf is not None:
@@ -1653,6 +1840,7 @@ class ZoneFn:
             return self._fact_cache[b]
         facts = self._facts_at(b)
         facts = [(a, c) for (a, c) in facts if not self.unstable(a) and not self.unstable(c)]
+        facts.extend(self.inv_facts)
         # x / c and c * x are not difference constraints: carry the constant bounds of x over to them
         for r, (kind, x, c, where) in sorted(self.scaled.items()):
             if (where is not None and not self.body.dominates(where, b)) or self.unstable(x) or self.unstable((r, 0)):
